@@ -102,7 +102,7 @@ pub fn run(ctx: &Ctx) -> i32 {
     }).reduce(Acc::new, Acc::merge);
     acc = acc.merge(acc2);
     if std::env::var("VH_DEBUG").is_ok() { eprintln!("trees done {:?}", ctx.t0.elapsed()); }
-    let wide = families::wide_tier(th);
+    let wide = families::wide_all(th);
     let aw = wide.par_iter().enumerate().with_max_len(1).map(|(wi, (wn, m))| {
         let mut acc = Acc::new();
         let Ok(e) = catch(|| bind::build(m, 0)) else { acc.viol("C05|wide|build-panic", "panic building a wide shape", format!("wide/{wn}"), json!({})); return acc };
